@@ -214,6 +214,21 @@ impl<'a> G<'a> {
     /// A loop body: ops from the sub-algebra. `iterate`: the body must end in an Unlimited block
     /// and must not grow or change the replication downwards.
     fn body(&mut self, iterate: bool, depth: usize, in_size: usize) -> Vec<UOp> {
+        // stress shape for stateful two-input operators inside loops: keys and values change
+        // with the loop state, then a self join (small key space, so that keys that are unmatched
+        // in one round coincide with keys of the previous round)
+        if !iterate && depth == 0 && in_size <= 30 && matches!(self.cfg.focus, Focus::Loops | Focus::Join) && self.rng.chance(1, 3) {
+            let mut ops = vec![UOp::MapState, UOp::ReKey { m: self.rng.range(2, 4) as u32 }];
+            ops.push(UOp::SplitJoin {
+                kind: *self.rng.pick(&[JoinKind::Outer, JoinKind::Left, JoinKind::Outer]),
+                local: *self.rng.pick(&[JoinLocal::SortMerge, JoinLocal::Hash, JoinLocal::SortMerge]),
+                m: self.rng.range(2, 5) as u32,
+            });
+            if self.rng.chance(1, 2) {
+                ops.push(UOp::GroupByFold(Agg::Sum));
+            }
+            return ops;
+        }
         let n = self.rng.usize(1, 4);
         let mut ops = Vec::new();
         let mut rep = Rep::Unlimited;
